@@ -564,6 +564,14 @@ def clause_shape(ctx, crate, crs, tag):
                                 fs = [e for e in d.get("proj", []) if isinstance(e, dict) and "f" in e and e.get("of") == CLAUSE]
                                 if d["k"] != "call" and fs:
                                     lits.add(("field%d" % fs[-1]["f"], "lit"))
+                    # a stored literal handed to a (virtually inlined) helper as an argument: `try_fold_pair(s1.negative(), s2, ..)`
+                    for s in tf.blocks[x]["stmts"]:
+                        if s["k"] == "assign" and s.get("inl") == "arg" and s["r"]["k"] == "use" and \
+                                tf.local_ty(s["p"]["l"]).endswith("clause::Literal"):
+                            d = tf.origin(s["r"]["o"])
+                            fs = [e for e in d.get("proj", []) if isinstance(e, dict) and "f" in e and e.get("of") == CLAUSE]
+                            if d["k"] != "call" and fs:
+                                lits.add(("field%d" % fs[-1]["f"], "lit"))
                 fold[v] = lits
     want = {
         "Requires": ({("field0", "neg")}, {("field0", "neg"), ("candidates", "pos")}),
